@@ -150,6 +150,8 @@ func (m *Module) Materialise(root string) error {
 type DeferStep struct {
 	Body string `json:"body,omitempty"`
 	Res  string `json:"res,omitempty"`
+	// callbacks this callback registers (with Context.Defer) when it runs; gengo appends them to the queue
+	Nested []DeferStep `json:"nested,omitempty"`
 }
 
 // Step is what a scripted generator does when called for one (package, type).
@@ -290,16 +292,22 @@ func (s *state) call(name string, c gengo.Context, pkg, ty string) error {
 		k := strings.LastIndex(u, ".")
 		c.RenderT("var _ @x // "+fmt.Sprint(i)+"\n", snippet.Arg("x", snippet.PkgExpose(u[:k], u[k+1:])))
 	}
-	for i, d := range st.Defers {
-		d, id := d, i
+	var register func(c gengo.Context, d DeferStep, id int)
+	register = func(c gengo.Context, d DeferStep, id int) {
 		c.Defer(func(c gengo.Context) error {
 			logEvent(Event{Defer: true, Gen: name, Pkg: pkg, Type: ty, ID: id, Body: d.Body, Res: d.Res})
 			if d.Body != "" {
 				c.Render(snippet.Block(d.Body))
 			}
+			for j, n := range d.Nested {
+				register(c, n, id*10+j+1)
+			}
 			die(d.Res)
 			return resErr(d.Res)
 		})
+	}
+	for i, d := range st.Defers {
+		register(c, d, i)
 	}
 	logEvent(Event{Gen: name, Pkg: pkg, Type: ty, Body: body, Res: st.Res})
 	die(st.Res)
@@ -743,6 +751,14 @@ func CoqWorld(w *World) string {
 	return fmt.Sprintf("(mk_world %s %s)", core.CoqList(pkgs), core.CoqList(direct))
 }
 
+func coqDefer(d DeferStep) string {
+	var nested []string
+	for _, n := range d.Nested {
+		nested = append(nested, coqDefer(n))
+	}
+	return "(SD " + core.Hex(d.Body) + " " + CoqRes(d.Res) + " " + core.CoqList(nested) + ")"
+}
+
 func CoqGens(gens []Gen) string {
 	var gs []string
 	for _, g := range gens {
@@ -757,7 +773,7 @@ func CoqGens(gens []Gen) string {
 			i := strings.Index(k, " ")
 			var dfs []string
 			for _, d := range st.Defers {
-				dfs = append(dfs, "("+core.Hex(d.Body)+", "+CoqRes(d.Res)+")")
+				dfs = append(dfs, coqDefer(d))
 			}
 			steps = append(steps, fmt.Sprintf("((%s, %s), mk_step %s %s %s %s %s)", core.Hex(k[:i]), core.Hex(k[i+1:]),
 				core.Hex(st.Body), CoqRes(st.Res), core.CoqBool(st.Count), core.CoqBool(st.Helper), core.CoqList(dfs)))
